@@ -1,12 +1,12 @@
 package c05
 
 import (
-	"strings"
 	"encoding/json"
 	"fmt"
 	"os"
 	"path/filepath"
 	"sort"
+	"strings"
 	"testing"
 
 	"pgregory.net/rapid"
@@ -193,6 +193,22 @@ func checkMeta(fe *fontEntry, c *Case, base []G, fail func(check, class string, 
 		if !cmp(b.Glyphs, a.Glyphs) {
 			ev.Label("meta_" + name + "_not_held_by_reference")
 			return
+		}
+		// port(A) != port(B) while ref(A) == ref(B): one of the two disagrees with the reference;
+		// when that disagreement belongs to a triaged class the identity failure has the same root
+		for _, pair := range []struct {
+			c   *Case
+			ref refResult
+		}{{refBase, a}, {d, b}} {
+			pr, err := shapePort(fe, pair.c)
+			if err != nil || sameGlyphs(pr.Glyphs, pair.ref.Glyphs) {
+				continue
+			}
+			if cl := triage(fe, pair.c, pr, pair.ref); cl.excluded {
+				ev.Label("meta_" + name + "_rooted_in_" + cl.id)
+				ev.Excluded(cl.id)
+				return
+			}
 		}
 		fail("meta-"+name, name, r.Glyphs, base, "metamorphic identity broken by the port (and held by the reference); variant %s", mustJSON(d))
 	}
